@@ -536,6 +536,8 @@ func c04Sensitivity(run *ev.Run, tier string) (collections int, pairs int64) {
 		// two names that are canonically equivalent in Unicode (precomposed / decomposed) and distinct on disk
 		{"caf\u00e9", []string{"bc", "x"}, false},
 		{"cafe\u0301", []string{"bc", "x"}, false},
+		// a file directly inside a directory that is called like spok's cache directory
+		{"sub/.spok/f", []string{"bc", "x"}, false},
 	}
 	root := filepath.Join(pool.Scratch, "sens")
 	type coll struct {
@@ -696,6 +698,50 @@ func c04Environment(run *ev.Run) int64 {
 	d2, ok2 = hashOf("current -> rel2", []string{filepath.Join(cur, "f")})
 	if ok1 && ok2 && d1 != d2 {
 		run.Report(ev.Violation{Key: "env relinked dir", Class: "same-files-different-digest", What: "the directory a dependency is reached through is a symbolic link that was re-pointed to a directory with identical files: same path, same content, different digest", Case: map[string]any{"environment": "relinked-dir"}})
+	}
+	// ... two links that swap their targets: the (path, content) pairs change
+	os.WriteFile(filepath.Join(root, "t", "x"), []byte("content x"), 0o644)
+	os.WriteFile(filepath.Join(root, "t", "y"), []byte("content y"), 0o644)
+	l1, l2 := filepath.Join(root, "l1"), filepath.Join(root, "l2")
+	os.Symlink(filepath.Join("t", "x"), l1)
+	os.Symlink(filepath.Join("t", "y"), l2)
+	d1, ok1 = hashOf("links l1->x l2->y", []string{l1, l2})
+	os.Remove(l1)
+	os.Remove(l2)
+	os.Symlink(filepath.Join("t", "y"), l1)
+	os.Symlink(filepath.Join("t", "x"), l2)
+	d2, ok2 = hashOf("links l1->y l2->x", []string{l1, l2})
+	if ok1 && ok2 && d1 == d2 {
+		run.Report(ev.Violation{Key: "env swapped links", Class: "content-change-keeps-digest", What: "two listed symbolic links swapped their targets (each path now has the other's content): the digest did not change", Case: map[string]any{"environment": "swapped-links"}})
+	}
+	// ... files of 16, 32 and 64 MiB (+1): a touch must not change the digest, a changed byte with the old size and time must
+	for _, mib := range []int64{16, 32, 64} {
+		big := filepath.Join(root, fmt.Sprintf("big%d", mib))
+		if f, err := os.Create(big); err == nil {
+			f.Truncate(mib<<20 + 1)
+			f.Close()
+		}
+		st, err := os.Stat(big)
+		if err != nil {
+			continue
+		}
+		b1, okb1 := hashOf(fmt.Sprintf("%d MiB file", mib), []string{big})
+		later := st.ModTime().Add(90 * time.Minute)
+		os.Chtimes(big, later, later)
+		b2, okb2 := hashOf(fmt.Sprintf("%d MiB file, touched", mib), []string{big})
+		if okb1 && okb2 && b1 != b2 {
+			run.Report(ev.Violation{Key: fmt.Sprintf("env big touch %d", mib), Class: "same-files-different-digest", What: fmt.Sprintf("a %d MiB file was touched (same path, same bytes, new modification time): the digest changed", mib), Case: map[string]any{"environment": "big-file-touched", "mib": mib}})
+		}
+		if f, err := os.OpenFile(big, os.O_WRONLY, 0); err == nil {
+			f.WriteAt([]byte{1}, mib<<19)
+			f.Close()
+		}
+		os.Chtimes(big, later, later)
+		b3, okb3 := hashOf(fmt.Sprintf("%d MiB file, one byte changed, same size and time", mib), []string{big})
+		if okb2 && okb3 && b2 == b3 {
+			run.Report(ev.Violation{Key: fmt.Sprintf("env big change %d", mib), Class: "content-change-keeps-digest", What: fmt.Sprintf("one byte in the middle of a %d MiB file changed while its size and modification time stayed: the digest did not change", mib), Case: map[string]any{"environment": "big-file-changed", "mib": mib}})
+		}
+		os.Remove(big)
 	}
 	// 2. a file whose size is reported as 0 although it has content, and whose content changes
 	if b1, err := os.ReadFile("/proc/uptime"); err == nil && len(b1) > 0 {
